@@ -153,6 +153,14 @@ func checkC18(c *Ctx) {
 		reportFindings(c, p, "C18.cache", nil, hits, "")
 		c.Ob("C18.cache", "-", "-", "caches-and-getters-found", "-", len(ci.globals) >= 8 && len(ci.getters) >= 8, fmt.Sprintf("expected the 8 lagrangeBasis caches and their getters, found %d caches / %d getters", len(ci.globals), len(ci.getters)))
 	}
+	// ---- exported functions do not hand out package-level storage
+	c.Rule("C18.leak", "L-LEAK: no exported function returns a slice / map / pointer (directly or inside a returned array / exported struct field) whose provenance is a package-level variable: the caller could modify tables shared by the whole process (found: G1IsogenyMap / G2IsogenyMap)", 2000)
+	{
+		sites, hits := globalLeaks(p, libFuncs(p))
+		c.Instance("C18.leak", sites)
+		reportFindings(c, p, "C18.leak", nil, hits, "")
+		c.Ob("C18.leak", "-", "-", "exported-results-analysed", "-", sites >= 2000, "fewer exported functions with pointer-like results than on the reference tree")
+	}
 	// ---- parallel closures write disjoint ranges (L8)
 	c.Rule("C18.partition", "PARTITION (L8): every func(start,end) closure handed to a parallel helper anywhere in the library writes shared (captured) memory only at indices derived from its own range, under a guard start == k, through sync/atomic, or inside a forwarded range callee", 250)
 	{
